@@ -22,6 +22,7 @@ import (
 	"strings"
 	"sync"
 	"time"
+	_ "time/tzdata" // the zone sub-section of datecontract must not depend on the machine's zoneinfo files
 	"unicode/utf8"
 
 	"github.com/logrange/logrange/api"
@@ -908,7 +909,87 @@ func sectionDateContract(rng *vh.Rng) {
 				What: "the text DateTime.String() prints for an instant is not read back to that instant by parseLqlDateTime"})
 		}
 	}
+	dateContractZones(sec, rng, vals)
 	res.Done(sec)
+}
+
+// dateZones: local zones the printed form of an instant depends on (DateTime.String() prints in time.Local with numeric offset
+// and zone abbreviation): abbreviations that are not three letters ("+04", "-03", "+0545", "+1245"), half-hour and 45-minute
+// offsets, DST in both hemispheres, four-letter abbreviations, UTC
+var dateZones = []string{"UTC", "Asia/Dubai", "America/Sao_Paulo", "Asia/Kathmandu", "Asia/Kolkata", "Australia/Lord_Howe",
+	"Pacific/Chatham", "America/St_Johns", "Europe/Berlin", "America/Los_Angeles", "Australia/Adelaide", "Africa/Casablanca", "Europe/Lisbon"}
+
+// dateInstantInZone: print v as DateTime.String() does with time.Local = loc and read it back
+func dateInstantInZone(loc *time.Location, v int64) (txt string, got int64, err error) {
+	old := time.Local
+	time.Local = loc
+	defer func() { time.Local = old }()
+	dt := lql.DateTime(v)
+	txt, err = strconv.Unquote(dt.String())
+	if err != nil {
+		return
+	}
+	tm, e := lql.VerifC12ParseDateTime(txt)
+	if e != nil {
+		return txt, 0, e
+	}
+	return txt, tm.UnixNano(), nil
+}
+
+// dateContractZones: "same range / same BEFORE instant" must not depend on the zone the process runs in. The sections run one
+// after the other and nothing else formats LQL instants meanwhile, so time.Local is switched in-process (restored after each call).
+func dateContractZones(sec *vh.Section, rng *vh.Rng, vals []int64) {
+	nRand := 300
+	if args.Thorough {
+		nRand = 5000
+	}
+	var inst []int64
+	inst = append(inst, 1546432495500000000, 1546432495120000000, 1546432495000000001, 1000000000000000000)
+	// every six hours through 2018 and 2019 (+ a sub-second part): both DST switches of every zone, both hemispheres
+	for t := int64(1514764800); t < 1577836800; t += 6 * 3600 {
+		inst = append(inst, t*1000000000+int64(rng.Intn(1000))*1000000)
+	}
+	// the hours around the switches at minute resolution would need the zone rules; a dense sweep of two weekends does it for
+	// Europe (last Sunday of March / October 2019) and the Americas (10 March / 3 November 2019)
+	for _, day := range []int64{1553990400, 1572134400, 1552176000, 1572739200} {
+		for m := int64(0); m < 36*60; m += 10 {
+			inst = append(inst, (day+m*60)*1000000000+500000000)
+		}
+	}
+	// random instants from 1980 on only: before its standard time a zone's local mean time has an offset with seconds
+	// (Asia/Dubai +03:41:12 until 1920, America/Sao_Paulo -03:06:28 until 1914), which the layout's "-0700" cannot carry — such an
+	// instant comes back up to 59 s off in those zones (observed on the unchanged tree; documented bound of this sub-section,
+	// the UTC run above covers the whole int64 range)
+	const from1980 = int64(315532800) * 1000000000
+	for i := 0; i < nRand; i++ {
+		v := vals[rng.Intn(len(vals))]
+		if v < from1980 {
+			v = from1980 + int64(rng.U64()%uint64(int64(1893456000)*1000000000-from1980))/1000000*1000000
+		}
+		inst = append(inst, v)
+	}
+	for _, zn := range dateZones {
+		loc, err := time.LoadLocation(zn)
+		if err != nil {
+			res.Note("datecontract: zone %s not available: %v", zn, err)
+			continue
+		}
+		bad := 0
+		for _, v := range inst {
+			txt, got, err := dateInstantInZone(loc, v)
+			res.Eval(sec, zn+" "+fmt.Sprint(v))
+			if err != nil || got != v {
+				bad++
+				if bad <= 3 {
+					res.SpecFail(vh.SpecFailure{Section: "datecontract", Kind: "meaning-changed",
+						Input: map[string]interface{}{"text": fmt.Sprintf("TRUNCATE BEFORE \"%d\"", v), "zone": zn, "instant": v},
+						Impl:  fmt.Sprintf("with time.Local = %s DateTime(%d).String() = %q is read back as %d (err %v): off by %d s", zn, v, txt, got, err, (got-v)/1000000000), Spec: fmt.Sprint(v), ImplEqModel: true,
+						What:  "the text DateTime.String() prints for a RANGE bound / BEFORE instant is not read back to that instant by parseLqlDateTime when the process runs in this local zone: the range shifts although print and parse both succeed"})
+				}
+			}
+		}
+		res.Dist(sec, "zone "+zn)
+	}
 }
 
 // ---------------------------------------------------------------------------------------------
@@ -1297,6 +1378,27 @@ func replay(path string) {
 	loadGrammarLits()
 	sec := res.Section("replay", "replay", "replay of one recorded input")
 	switch rp.Section {
+	case "datecontract":
+		var c struct {
+			Zone    string `json:"zone"`
+			Instant int64  `json:"instant"`
+		}
+		json.Unmarshal(rp.Input, &c)
+		if c.Zone == "" {
+			c.Zone = "Local"
+		}
+		loc, err := time.LoadLocation(c.Zone)
+		if err != nil {
+			res.Fatal(args.Out, "replay: zone %s: %v", c.Zone, err)
+		}
+		txt, got, perr := dateInstantInZone(loc, c.Instant)
+		res.Eval(sec, c.Zone+" "+fmt.Sprint(c.Instant))
+		fmt.Printf("zone %s instant %d printed %q read back %d err %v\n", c.Zone, c.Instant, txt, got, perr)
+		if perr != nil || got != c.Instant {
+			res.SpecFail(vh.SpecFailure{Section: "datecontract", Kind: "meaning-changed", Input: map[string]interface{}{"zone": c.Zone, "instant": c.Instant},
+				Impl: fmt.Sprintf("%q read back as %d (err %v)", txt, got, perr), Spec: fmt.Sprint(c.Instant), ImplEqModel: true,
+				What: "the printed instant is not read back to the instant in this local zone"})
+		}
 	case "pipes":
 		var p pipeCase
 		json.Unmarshal(rp.Input, &p)
